@@ -528,12 +528,52 @@ def r20d(ctx, P):
     ctx.floor(rid, n, 3, "score-mode / computed-score selection sites")
 
 
+def r20e(ctx, P):
+    rid = "R20.e"
+    import re
+    ctx.rule(rid, "AGREE (the second scoring implementation is a structure-preserving copy of the first): explain and custom scoring "
+                  "evaluate the CompiledScoreNode tree, plain searches the planner's ScoreExpr / ScoreNode tree; they give the same "
+                  "scores only if compile_score_node maps every node to one node of the same kind. In compile_score_node (and "
+                  "compile_functions) the result of a recursive compilation is never inspected (no discriminant read of a "
+                  "CompiledScoreNode value) and child lists only grow by `push` of exactly one compiled child per source child — no "
+                  "extend / append / flattening / reordering of compiled children")
+    n = 0
+    for name in ("compile_score_node", "compile_functions"):
+        f = P.fn("searchlite_core::api::reader::" + name)
+        if f is None:
+            continue
+        n += 1
+        ctx.saw(f)
+        bad = []
+        for g in [f] + P.closures_of(f):
+            for b, i, st in g.stmts():
+                if st["k"] == "assign" and st["rv"]["k"] == "discr":
+                    pl = st["rv"]["place"]
+                    ty = g.local_ty(pl["l"])
+                    if "CompiledScoreNode" in ty and "Result<" not in ty and "ControlFlow" not in ty and not ty.startswith("&searchlite_core::query::planner"):
+                        # the match on the SOURCE node is on ScoreNode, not CompiledScoreNode
+                        bad.append((Site(g, b, i), "inspects a compiled node (match on CompiledScoreNode)"))
+            for b, t in g.calls():
+                cal = callee_of(t)
+                if not t["args"] or op_local(t["args"][0]) is None:
+                    continue
+                rty = g.local_ty(op_local(t["args"][0]))
+                if "CompiledScoreNode" in rty and re.search(r"Vec::<T, A>::(extend|append|insert|splice|extend_from_slice|swap|reverse|sort_by|retain|dedup_by|truncate|remove)$|::extend$", cal):
+                    bad.append((Site(g, b), "changes a list of compiled children with `%s`" % cal.rsplit("::", 1)[1]))
+        ctx.ob(rid, "%s:%s:structure-preserving" % (rid, name), not bad,
+               "%s maps each source node to one compiled node without inspecting or rearranging compiled children" % name if not bad else
+               "%s %s at %s: the compiled tree is no longer a copy of the planner's tree, so explain / custom scoring can score a query "
+               "differently from the plain search" % (name, bad[0][1], bad[0][0].loc()), bad[0][0].loc() if bad else "%s:%s" % (f.file, f.line))
+    ctx.floor(rid, n, 1, "score-tree compilers (compile_score_node)")
+
+
 def run(ctx, progs):
     P = progs.get("default")
     r20a(ctx, P)
     r20b(ctx, P)
     r20c(ctx, P)
     r20d(ctx, P)
+    r20e(ctx, P)
     if ctx.tier == "thorough":
         ctx.config = "features"
         Pf = progs.get("features")
